@@ -1,12 +1,12 @@
 """C09 — ending a process notifies waiters once, frees holdings, silences its events.
 
 Proof:  Props/C09.lean over the process-layer model CimbaModel/Sim.
-Tie:    harness/simdrv.c <-> Drivers/SimMain.lean on generated scenarios (profiles lifecycle, mixed, resource, pool, timers), complete observable logs;
+Tie:    harness/simdrv.c <-> Drivers/SimMain.lean on generated scenarios (profiles lifecycle, mixed, resource, pool, timers, timerso), complete observable logs;
         tools/simmon.py (C09 clauses) on every implementation log. See tools/simcheck.py.
 """
 import simcheck
 
-PROFILES = ['lifecycle', 'mixed', 'resource', 'pool', 'timers']
+PROFILES = ['lifecycle', 'mixed', 'resource', 'pool', 'timers', 'timerso']
 
 
 def run(chk):
